@@ -390,6 +390,32 @@ pub(crate) fn items(thorough: bool) -> Vec<Item> {
         bound: bound_small,
         ahead: 0,
     });
+    // falling difficulty (x 1/2 per epoch): the last part of the DIFFICULTY range of the first proof
+    // covers many more than last-N blocks, the server sends all blocks since the boundary as the
+    // last section; right after that proof (or after a restart) the peers switch to a fork that is
+    // one / two blocks deep - the stored last-N headers must be the LAST N of that section
+    for (name, fork_at, restart) in [("falling-then-fork1", 21u64, false), ("falling-then-fork2", 20, false), ("falling-restart-fork", 21, true)] {
+        let mut phases = vec![];
+        if restart {
+            phases.push(Phase::Restart);
+        }
+        phases.push(Phase::Move(1, 1, 26));
+        phases.push(Phase::Move(2, 1, 26));
+        v.push(Item {
+            name: name.into(),
+            chain_len: 23,
+            plan: plan(4, &[16, 8, 4, 2, 1, 1, 1]),
+            fork: Some((fork_at, 26)),
+            peers: vec![(1, 0, 22), (2, 0, 22)],
+            phases,
+            last_n: n,
+            mmr_epoch: 0,
+            with_scripts: false,
+            seeds: seeds_small.clone(),
+            bound: bound_small,
+            ahead: 0,
+        });
+    }
     // two peers at different heights; the LOWER one grows block by block (the child shortcut of a
     // proven state) while the higher one stays: the stored tip must stay the higher peer's
     // (steps by one block: the child shortcut; jumps by 2: a short proof; by 8: a sampled proof -
